@@ -260,13 +260,25 @@ def run_case(case):
         feats = set()
         ev = _state["events"]
         last = None
+        todo = []
         for k in range(case.get("nprog", 40)):
             prog = FG.make_program(rng, colinfo)
-            desc = FG.describe(prog)
+            todo.append((k, prog, prog, 0))
+            if k % 4 == 0:
+                # the same program with the value collections of 'in' / 'not in' handed over as tuples, sets, arrays ...: decided and read
+                # on its own (the library may legitimately keep other row groups for it); the oracle keeps judging the list form
+                aprog, n_other = FG.api_form(prog, k // 4)
+                if n_other:
+                    todo.append((k, prog, aprog, n_other))
+        for (k, prog, fprog, n_other) in todo:
+            desc = FG.describe(fprog)
             del ev[:]
             try:
-                kept = A.filter_row_groups(pf, prog)
+                kept = A.filter_row_groups(pf, fprog)
             except Exception as e:
+                if n_other and isinstance(e, (TypeError, ValueError)):
+                    counters["value_collection_form_refused"] = counters.get("value_collection_form_refused", 0) + 1
+                    continue
                 counters["refused"] = counters.get("refused", 0) + 1
                 counters["refused:" + type(e).__name__] = counters.get("refused:" + type(e).__name__, 0) + 1
                 continue
@@ -320,9 +332,11 @@ def run_case(case):
                 res["failures"].append({"kind": "kept_row_groups_out_of_order", "program": desc, "kept": kept_idx})
             if k % 4 == 0:
                 try:
-                    got = pf.to_pandas(columns=["rid"], filters=prog, index=False)
-                    cnt = int(pf.count(filters=prog))
-                    it = [int(x) for part in pf.iter_row_groups(filters=prog, columns=["rid"], index=False) for x in part["rid"].tolist()]
+                    got = pf.to_pandas(columns=["rid"], filters=fprog, index=False)
+                    cnt = int(pf.count(filters=fprog))
+                    it = [int(x) for part in pf.iter_row_groups(filters=fprog, columns=["rid"], index=False) for x in part["rid"].tolist()]
+                    if n_other:
+                        counters["api_reads_with_value_collections_other_than_lists"] = counters.get("api_reads_with_value_collections_other_than_lists", 0) + 1
                     counters["api_reads_compared"] = counters.get("api_reads_compared", 0) + 1
                     if got["rid"].tolist() != exp_rids:
                         res["failures"].append({"kind": "filtered_read_not_concatenation_of_kept_groups", "program": desc,
@@ -399,4 +413,5 @@ def coverage_extra(agg):
 
 def required(tier):
     return {"programs_judged": 3000, "programs_with_pruning": 300, "decisions_true_checked": 500, "api_reads_compared": 500,
-            "lattice_points": 1000, "programs_on_suffix_named_partitions": 100, "programs_on_new_style_statistics": 300}
+            "lattice_points": 1000, "programs_on_suffix_named_partitions": 100, "programs_on_new_style_statistics": 300,
+            "api_reads_with_value_collections_other_than_lists": 50}
